@@ -1059,7 +1059,7 @@ func (e *CEnv) trCall(x *CExpr) CVal {
 		a := e.tr(x.Args[0])
 		return CVal{v.freshFact(a, e.old.alloc, e.st.alloc), boolT}
 	case "bytesframe": // bytesframe(e1, ..., en): every byte that existed at function entry and lies
-		// outside the capacity ranges of the slices e1..en (as they were at entry) has its entry value
+		// outside the slices e1..en (as they were at entry; write e[0:cap(e)] for the capacity) has its entry value
 		if v.mode == "bv" {
 			unsupported("contract: bytesframe in bv mode")
 		}
@@ -1074,7 +1074,7 @@ func (e *CEnv) trCall(x *CExpr) CVal {
 			if o.T.Sort != SSlice {
 				unsupported("contract: bytesframe arguments must be slices")
 			}
-			conds = append(conds, Not(And(Eq(b, SBase(o.T)), Le(SOff(o.T), i), Lt(i, Add(SOff(o.T), SCap(o.T))))))
+			conds = append(conds, Not(And(Eq(b, SBase(o.T)), Le(SOff(o.T), i), Lt(i, Add(SOff(o.T), SLen(o.T))))))
 		}
 		body := Implies(And(conds...), Eq(Select(Select(hNow, b), i), Select(Select(hOld, b), i)))
 		return CVal{Forall([]*Term{b, i}, body, Select(Select(hNow, b), i)), boolT}
